@@ -51,8 +51,9 @@ PROPS = {
             "quick": {"cases": 2400, "wall_s": 75, "seed": 1, "minimise_s": 40},
             "thorough": {"cases": 60000, "wall_s": 1500, "seed": 1001, "minimise_s": 120},
         },
-        "probes_wanted": ["via=cli", "jobs>1", "mutex_contended", "unique_id_tie", "score_tie_skipped", "o3_compared",
+        "probes_wanted": ["via=cli", "list_is_part_of_document", "duplicate_or_no_pointer", "jobs>1", "mutex_contended", "unique_id_tie", "score_tie_skipped", "o3_compared",
                           "matched_by_unique_id", "matched_by_pointer", "matched_by_similarity"],
+        "shrink_lists": [["compare", "left_drop"], ["compare", "right_drop"]],
         "shrink_scalars": [_set(["compare", "diff_page"], False), _set(["compare", "notifier"], ""),
                            _set(["compare", "jobs"], 2), _set(["compare", "min_ws"], -1), _set(["compare", "prefer_ptr"], -1)],
         "components": comp(['cmd/gedcom (the command itself, in a third of the C14 cases and an eighth of the C11 cases): real code, copied into the scratch tree as package cmdsim and instrumented like the library; stubs: the log package (Fatal* panics with an exit value instead of ending the process), os/signal (no signal is delivered), os.Args / flag.CommandLine / os.Stdout set per run by the harness; files are real files in a temporary directory; the progress bar (-progress) is never switched on']),
@@ -112,7 +113,7 @@ PROPS = {
             "quick": {"cases": 1600, "wall_s": 75, "seed": 1, "minimise_s": 40},
             "thorough": {"cases": 100000, "wall_s": 1500, "seed": 1001, "minimise_s": 120},
         },
-        "probes_wanted": ["jobs>1", "has_living_people", "visibility=hide", "visibility=placeholder", "hide_noninterference_compared", "nonliving_checked"],
+        "probes_wanted": ["jobs>1", "has_living_people", "visibility=hide", "visibility=placeholder", "hide_noninterference_compared", "nonliving_checked", "blank_padded_input"],
         "shrink_lists": [["publish", "variants"]],
         "shrink_scalars": [_set(["publish", "jobs"], 1), _set(["publish", "options", "statistics"], False), _set(["publish", "options", "sources"], False),
                            _set(["publish", "options", "families"], False), _set(["publish", "options", "places"], False), _set(["publish", "options", "surnames"], False)],
@@ -239,7 +240,7 @@ PROPS = {
             "quick": {"cases": 3200, "wall_s": 75, "seed": 1, "minimise_s": 40},
             "thorough": {"cases": 200000, "wall_s": 1500, "seed": 1001, "minimise_s": 120},
         },
-        "probes_wanted": ["cache_warmed_by_read", "op:node.delete", "op:node.setnodes", "op:doc.delete", "op:doc.setnodes", "op:ro.warnings", "op:ro.compare", "op:ro.publish",
+        "probes_wanted": ["cache_warmed_by_read", "op:doc.addnode.dup", "op:node.delete", "op:node.setnodes", "op:doc.delete", "op:doc.setnodes", "op:ro.warnings", "op:ro.compare", "op:ro.publish",
                           "op:ro.comparenodes", "op:ro.deepcopy", "op:ro.filter", "op:ro.query", "op:ro.diffpage", "op:fam.sethusband.nil", "op:fam.addchild"],
         "shrink_lists": [["history", "ops"]],
         "components": comp(["file system for the publish operation: simulated disk", "q (query engine): real, instrumented for map order only"]),
